@@ -1051,6 +1051,9 @@ func Script(asserts []*Term, opts ScriptOpts) string {
 	for _, a := range opts.NamedValues {
 		walk(a)
 	}
+	for _, a := range opts.GetValues {
+		walk(a)
+	}
 	var sb strings.Builder
 	if opts.Cvc5 {
 		sb.WriteString("(set-option :produce-models true)\n(set-logic ALL)\n")
